@@ -207,11 +207,58 @@ class Ctx:
             return
         self.s.add(z3bool(b))
 
+    def forked_check(self, solver, timeout_ms, want_model=False):
+        """run solver.check() in a forked child that is killed at the deadline: z3's own timeout is not honoured inside
+        some nonlinear-arithmetic procedures.  Returns (z3 result, model dict | None)."""
+        import pickle
+        import select
+        import signal
+        rfd, wfd = os.pipe()
+        pid = os.fork()
+        if pid == 0:
+            try:
+                os.close(rfd)
+                solver.set('timeout', int(timeout_ms))
+                r = solver.check()
+                md = None
+                if r == z3.sat and want_model:
+                    md = _plain(self.model_dict(solver.model()))
+                os.write(wfd, pickle.dumps((str(r), md)))
+            except BaseException:
+                pass
+            finally:
+                os._exit(0)
+        os.close(wfd)
+        res = ('unknown', None)
+        try:
+            ready, _, _ = select.select([rfd], [], [], timeout_ms / 1000.0 + 2.0)
+            if ready:
+                buf = b''
+                while True:
+                    chunk = os.read(rfd, 1 << 16)
+                    if not chunk:
+                        break
+                    buf += chunk
+                if buf:
+                    res = pickle.loads(buf)
+        finally:
+            os.close(rfd)
+            try:
+                os.kill(pid, signal.SIGKILL)
+            except ProcessLookupError:
+                pass
+            os.waitpid(pid, 0)
+        r = {'sat': z3.sat, 'unsat': z3.unsat}.get(res[0], z3.unknown)
+        return r, res[1]
+
     def feasible(self, t):
         self.s.push()
         self.s.add(t)
         t0 = time.time()
-        r = self.s.check()
+        if self.cfg.extra.get('fork_solver'):
+            r, _ = self.forked_check(self.s, self.cfg.branch_timeout_ms)
+        else:
+            r = self.s.check()
         self.solver_ms += (time.time() - t0) * 1000
         self.s.pop()
         return r != z3.unsat
@@ -270,8 +317,12 @@ class Ctx:
                 return True
             # concretely false on this path: a model of the path condition is the counterexample
             t0 = time.time()
-            self.s.set('timeout', self.cfg.prove_timeout_ms)
-            r = self.s.check()
+            fmodel = None
+            if self.cfg.extra.get('fork_solver'):
+                r, fmodel = self.forked_check(self.s, self.cfg.prove_timeout_ms, want_model=True)
+            else:
+                self.s.set('timeout', self.cfg.prove_timeout_ms)
+                r = self.s.check()
             self.s.set('timeout', self.cfg.branch_timeout_ms)
             ms = (time.time() - t0) * 1000
             self.solver_ms += ms
@@ -280,7 +331,7 @@ class Ctx:
                 self.obls.append(rec)
                 raise PathEnd()
             if r == z3.sat:
-                rec.update(status='refuted', backend='z3', ms=ms, model=self.model_dict(self.s.model()))
+                rec.update(status='refuted', backend='z3', ms=ms, model=fmodel if fmodel is not None else self.model_dict(self.s.model()))
             else:
                 rec.update(status='unknown', backend='z3', ms=ms, detail='goal is false but path feasibility unknown')
             self.obls.append(rec)
@@ -288,13 +339,22 @@ class Ctx:
         g = z3bool(goal)
         self.s.push()
         self.s.add(z3.Not(_skolemize(g)))
-        self.s.set('timeout', min(self.cfg.prove_timeout_ms, 2500))      # quick incremental attempt; fresh solvers get the full budget
         t0 = time.time()
-        r = self.s.check()
-        ms = (time.time() - t0) * 1000
         backend = 'z3'
         model = None
-        if r == z3.unknown:
+        forked = bool(self.cfg.extra.get('fork_solver'))
+        if forked:
+            fs = z3.Solver()
+            fs.set('random_seed', self.cfg.seed)
+            for a_ in self.s.assertions():
+                fs.add(a_)
+            r, model = self.forked_check(fs, self.cfg.prove_timeout_ms, want_model=True)
+            backend = 'z3-forked'
+        else:
+            self.s.set('timeout', min(self.cfg.prove_timeout_ms, 2500))      # quick incremental attempt; fresh solvers get the full budget
+            r = self.s.check()
+        ms = (time.time() - t0) * 1000
+        if r == z3.unknown and not forked:
             # the incremental solver gives up more easily (no preprocessing): retry the same query on fresh solvers
             for seed in (self.cfg.seed, self.cfg.seed + 7, self.cfg.seed + 101):
                 fs = z3.Solver()
@@ -313,7 +373,7 @@ class Ctx:
                     backend = 'z3-fresh'
                     break
         if r == z3.sat:
-            if model is None:
+            if model is None and not forked:
                 model = self.model_dict(self.s.model())
         elif r == z3.unknown and self.cfg.use_cvc5:
             smt2 = self.s.to_smt2()
